@@ -22,6 +22,7 @@ Al(i, s, d) == [M0 EXCEPT !.white = TRUE, !.important = i, !.permDom = IF s THEN
 Bf(r)       == [r EXCEPT !.badfilter = TRUE]
 RW(v)       == <<v>>
 
+SlashStar == [M0 EXCEPT !.pat = Str("||h.test/*")]
 VerdictMain == << Bk(FALSE, FALSE), Bk(FALSE, TRUE), Bk(TRUE, FALSE), Bk(TRUE, TRUE),
                   Al(FALSE, FALSE, {}), Al(FALSE, TRUE, {}), Al(TRUE, FALSE, {}), Al(TRUE, TRUE, {}),
                   Al(FALSE, FALSE, {"urlblock"}), Al(FALSE, FALSE, {"genericblock"}), Al(FALSE, FALSE, Doc5),
@@ -33,7 +34,9 @@ VerdictMain == << Bk(FALSE, FALSE), Bk(FALSE, TRUE), Bk(TRUE, FALSE), Bk(TRUE, T
                   [M0 EXCEPT !.restTypes = {"script"}, !.restDom = {OthDom}],
                   Bf(Bk(FALSE, FALSE)), Bf(Bk(TRUE, FALSE)), Bf(Al(FALSE, FALSE, {})), Bf(Al(TRUE, FALSE, {})),
                   Bf(Bk(FALSE, TRUE)), Bf(Al(FALSE, FALSE, {"urlblock"})),
-                  Bf([M0 EXCEPT !.rewrite = RW(Str("1.2.3.4"))]), Bf([M0 EXCEPT !.third = "on"]) >>
+                  Bf([M0 EXCEPT !.rewrite = RW(Str("1.2.3.4"))]), Bf([M0 EXCEPT !.third = "on"]),
+                  \* the same rule spelled with a trailing "/*", without any option, and the twin of that spelling
+                  SlashStar, Bf(SlashStar) >>
 SAl(i, d) == [S0 EXCEPT !.white = TRUE, !.important = i, !.docOpts = d]
 VerdictSrc  == << SAl(FALSE, {"urlblock"}), SAl(FALSE, {"genericblock"}), SAl(FALSE, Doc5), SAl(FALSE, {}),
                   S0, SAl(TRUE, {"urlblock"}), SAl(TRUE, {"genericblock"}), Bf(SAl(FALSE, {"urlblock"})),
@@ -56,7 +59,7 @@ Near == << [X0 EXCEPT !.restTypes = {"script"}], [X0 EXCEPT !.important = TRUE],
            [X0 EXCEPT !.pat = Str("||h.test/*/*")] >>
 X1 == [M0 EXCEPT !.rewrite = RW(Str("1.2.3.4"))]
 BadfilterMain == <<X0, Bf(X0)>> \o Near \o [k \in 1..Len(Near) |-> Bf(Near[k])]
-                 \o << M0, Bf(M0), Al(FALSE, FALSE, {}), Bf(Al(FALSE, FALSE, {})), Al(TRUE, FALSE, {}), Bf(Al(TRUE, FALSE, {})),
+                 \o << M0, Bf(M0), Al(FALSE, FALSE, {}), Bf(Al(FALSE, FALSE, {})), Al(TRUE, FALSE, {}), Bf(Al(TRUE, FALSE, {})), SlashStar, Bf(SlashStar),
                        X1, Bf(X1), [M0 EXCEPT !.rewrite = RW(Str("2.3.4.5"))], Bf([M0 EXCEPT !.rewrite = RW(Str("2.3.4.5"))]) >>
 BadfilterSrc  == << SAl(FALSE, {"urlblock"}), Bf(SAl(FALSE, {"urlblock"})), SAl(FALSE, {"genericblock"}) >>
 
@@ -103,7 +106,7 @@ TwinNeutral == phase = "src" =>
     \A i \in bag : \A j \in bag :
         Twin(Main[j], Main[i]) =>
             LET B2 == { Main[k] : k \in bag \ {i, j} } IN
-            (Main[i] \notin B2) => /\ WebClass(BB, SS) = WebClass(B2, SS)
+            (~\E x \in B2 : SameRule(x, Main[i])) => /\ WebClass(BB, SS) = WebClass(B2, SS)
                                    /\ DNSClass(BB) = DNSClass(B2)
 \* a $badfilter rule never disables a rule that differs from it in a modifier value
 OnlyTwins == phase = "src" => \A i \in bag : (~Main[i].badfilter /\ ~\E j \in bag : Twin(Main[j], Main[i])) => Main[i] \in RemoveBadfilter(BB)
